@@ -361,8 +361,13 @@ class SchemaValidator:
                 )
             )
 
-        for param in remaining[3:]:
-            if param.default is Parameter.empty:
+        expected_positional = [p.name for p in remaining_positional[:3]]
+
+        for param in remaining:
+            if (
+                param.name not in expected_positional
+                and param.default is Parameter.empty
+            ):
                 self.add_error(
                     'Required resolver parameter "%s" on "%s" does not match '
                     "any known argument or expected positional parameter"
